@@ -142,11 +142,13 @@ impl Property for C11 {
             o.evals += 1;
             let main_style = async {
                 let r = rm.recover().await.map_err(|e| e.to_string())?;
-                let mut ds = r.deltas;
-                for e in rot_r.recover_all_entries().map_err(|e| e.to_string())? { if let Ok(d) = e.to_delta() { ds.push(d); } }
-                Ok::<_, String>((r.checkpoint_state, ds))
+                let seg_ds = r.deltas;
+                let mut wal_ds = Vec::new();
+                for e in rot_r.recover_all_entries().map_err(|e| e.to_string())? { if let Ok(d) = e.to_delta() { wal_ds.push(d); } }
+                Ok::<_, String>((r.checkpoint_state, seg_ds, wal_ds))
             }.await;
-            let (cp_state, all_deltas) = match main_style { Ok(x) => x, Err(e) => { o.v.push(("C11/main-style/error".into(), e)); return o; } };
+            let (cp_state, seg_deltas, wal_deltas) = match main_style { Ok(x) => x, Err(e) => { o.v.push(("C11/main-style/error".into(), e)); return o; } };
+            let all_deltas: Vec<ReplicationDelta> = seg_deltas.iter().cloned().chain(wal_deltas.iter().cloned()).collect();
             let got = fold_impl(cp_state.as_ref(), all_deltas.iter());
             if let Some((k, e, g)) = diff(&exp_all, &got) { o.v.push(("C11/main-style/state-differs".into(), format!("recover()+replay of all WAL entries: key {} expected {} got {}", k, e, g))); return o; }
             // (d) into a real node, twice (idempotence)
@@ -154,7 +156,10 @@ impl Property for C11 {
                 o.probes.push("node_recovery_checked");
                 let node = ReplicatedShardedState::with_time_source(repl_config(1), clock.clone());
                 for round in 0..2 {
-                    node.apply_recovered_state(cp_state.clone(), all_deltas.clone());
+                    // as server_persistent does: the object-store recovery first (integration.rs), then the
+                    // replay of the local WAL as a second, separate application
+                    node.apply_recovered_state(cp_state.clone(), seg_deltas.clone());
+                    node.apply_recovered_state(None, wal_deltas.clone());
                     let snap: BTreeMap<String, ReplicatedValue> = node.snapshot_state().await.into_iter().collect();
                     o.evals += 1;
                     if let Some((k, e, g)) = diff(&exp_all, &snap) { o.v.push((if round == 0 { "C11/node/state-differs".into() } else { "C11/node/repeat-recovery-differs".into() }, format!("node after apply_recovered_state (round {}): key {} expected {} got {}", round + 1, k, e, g))); return o; }
